@@ -214,7 +214,7 @@ def case_validation(case):
     """Model construction / assignment on symbolic doubles."""
     name, which = case
     E = shadow.load()
-    c = set_ctx(Ctx(timeout_ms=120000))
+    c = set_ctx(Ctx(timeout_ms=600000))     # exact fpDiv queries: ~40 s
     State.OBJECT_ALLOC = False
     grid = E.meshes.BaseMesh([[1.], [1.], [1.]], (0, 0, 0))
     v1, v2 = F64.var('v1'), F64.var('v2')
